@@ -204,6 +204,32 @@ def check_detect(np, cnn, ridges, rot, ds=1, H=100, W=150):
     return bad
 
 
+def outline_rotation_check():
+    """baseline_to_textline (the helper every stage uses to rebuild an outline from a baseline and its heights) commutes with the
+    rotations of the page by 90 / 180 / 270 degrees: the outline of the rotated baseline is the rotated outline, so lines found in
+    a rotated analysis (whose baselines run downwards, right-to-left or upwards in original-image coordinates) get the ascender
+    height on their ascender side."""
+    core.setup_repo_path()
+    import numpy as np
+    from pero_ocr.layout_engines import layout_helpers as helpers
+    bad, n = [], 0
+    R = np.array([[0.0, 1.0], [-1.0, 0.0]])            # (x, y) -> (-y, x) as row vectors: a proper rotation by 90 degrees
+    bls = [[[10, 50], [200, 60]], [[10, 50], [100, 40], [220, 55]], [[30, 20], [60, 90], [100, 170]], [[5, 5], [50, 5]], [[0, 100], [80, 20], [160, 10], [300, 0]]]
+    for b in bls:
+        for hs in ((12.0, 4.0), (3.0, 9.0)):
+            b0 = np.asarray(b, dtype=float)
+            t0 = np.asarray(helpers.baseline_to_textline(b0, list(hs)), dtype=float)
+            M = np.eye(2)
+            for k in (1, 2, 3):
+                M = M @ R
+                n += 1
+                tk = np.asarray(helpers.baseline_to_textline(b0 @ M, list(hs)), dtype=float)
+                if tk.shape != t0.shape or np.abs(tk - t0 @ M).max() > 0.05:
+                    bad.append(('original-image-coordinates', 'baseline %r rotated by %d degrees with heights %r: the outline is not the rotated outline (max deviation %.1f px)'
+                                % (b, 90 * k, hs, float(np.abs(tk - t0 @ M).max()) if tk.shape == t0.shape else -1)))
+    return n, bad
+
+
 def adaptive_downsample_check():
     """the real TorchParseNet.get_maps_with_optimal_resolution (the function LayoutEngine.detect takes (maps, ds) from) on ONE long-lived
     object over page histories: the factor it returns is the factor the returned maps were computed with.  get_maps is replaced by a
@@ -357,6 +383,13 @@ def run(ctx):
                     rule='every map of the stated grid; non-trivial = at least two ridges', clause='one line per ridge, positions, heights, original-image coordinates')
     bounded.close()
     try:
+        n2_, bad2_ = outline_rotation_check()
+    except Exception as e:
+        n2_, bad2_ = 1, [('no-exception', 'baseline_to_textline raised %r' % (e,))]
+    ctx.add_bounded('outline-rotation', 'baseline_to_textline on 5 baselines x 2 height pairs x rotations by 90 / 180 / 270 degrees', n2_, n2_, False, [{'baseline': [[10, 50], [200, 60]]}],
+                    [Failure(sig('rt', 'baseline_to_textline', c_), d_, function='layout_helpers.baseline_to_textline', input={'outline_rotation': True}, observed=d_, clause=c_) for c_, d_ in bad2_[:1]],
+                    rule='fixed cases', clause='outlines rebuilt from baselines of a rotated analysis refer to the original image')
+    try:
         n_, bad_ = adaptive_downsample_check()
     except Exception as e:
         n_, bad_ = 1, [('no-exception', 'get_maps_with_optimal_resolution raised %r' % (e,))]
@@ -373,6 +406,12 @@ def run(ctx):
 def replay(entry):
     core.setup_repo_path()
     inp = entry.get('input') or {}
+    if inp.get('outline_rotation'):
+        n_, bad = outline_rotation_check()
+        for b in bad:
+            print('REPLAY-FAIL', b)
+        print('replay: %d problem(s) over %d cases' % (len(bad), n_))
+        return 1 if bad else 0
     if inp.get('adaptive_downsample'):
         n_, bad = adaptive_downsample_check()
         for b in bad:
